@@ -59,7 +59,10 @@ def dump_mir(repo="/repo", log=None):
         os.makedirs(dst)
         shutil.copytree(os.path.join(repo, "src"), os.path.join(dst, "src"))
         for f in ("Cargo.toml", "Cargo.lock"):
-            shutil.copyfile(os.path.join(repo, f), os.path.join(dst, f))
+            src = os.path.join(repo, f)
+            if not os.path.exists(src):
+                src = os.path.join("/repo", f)      # Cargo.lock is not tracked: scratch worktrees lack it
+            shutil.copyfile(src, os.path.join(dst, f))
         env = dict(os.environ, CARGO_NET_OFFLINE="true", CARGO_TARGET_DIR=os.path.join(scratch, "target"))
         env.pop("RUSTFLAGS", None)
         p = subprocess.run(
